@@ -1,7 +1,7 @@
 CONSTANTS
   Dev = {"PlusInUnicodeEscape"}
   Alphabet <- AlphaEsc
-  MaxLen = 4
+  MaxLen = 3
   DepthProbe = {256}
 INIT Init
 NEXT Next
